@@ -107,9 +107,9 @@ class ExpFrame:
         self.written = []             # per channel: written (windowed, cast) array in native order
 
 
-def written_array(op, window):
+def written_array(op, window, data=None):
     """The array the file must hold for a channel: windowed rows, cast if requested."""
-    arr = model.logical_array(op['data'])
+    arr = model.logical_array(data if data is not None else op['data'])
     f, t = window
     arr = arr[f:t]
     native = arr.astype(arr.dtype.newbyteorder('='))
@@ -154,7 +154,8 @@ class Expectation:
             chans = [(r['$ref'], lf['objs'][r['$ref']]) for r in o.op['attrs']['channels']['v']]
             ef = ExpFrame(o, chans)
             for cj, co in chans:
-                arr = written_array(co.op, self.window)
+                src = co.op.get('data_from')
+                arr = written_array(co.op, self.window, lf['ops'][src]['data'] if src is not None else None)
                 ef.written.append(arr)
                 be = arr.astype(arr.dtype.newbyteorder('>'))
                 ef.slot_bytes.append([be[r:r + 1].tobytes() for r in range(be.shape[0])])
